@@ -71,17 +71,22 @@ class Probe(Component):
     def sub_components(self):
         self.accesses += 1
         kind = self.spec.get("sub", "list")
+        holes = self.spec.get("holes") or []
         if kind == "fresh":                       # created lazily, NEW objects on every access
-            return self._make_children()
-        if self._children is None:
-            self._children = self._make_children()
+            seq = self._make_children()
+        else:
+            if self._children is None:
+                self._children = self._make_children()
+            seq = self._children
+        if holes:                                 # None / empty list / empty tuple among the sub-components
+            seq = with_holes(seq, holes)
         if kind == "tuple":
-            return tuple(self._children)
+            return tuple(seq)
         if kind == "gen":
-            return (c for c in self._children)
+            return (c for c in seq)
         if kind == "copy":                        # the same objects in a new list on every access
-            return list(self._children)
-        return self._children
+            return list(seq)
+        return seq
 
     def setup(self, builder):
         st = STATE
@@ -93,30 +98,158 @@ class Probe(Component):
             st.setdefault("deleted", []).append([self.name, st["delete"][0], st["delete_fn"](builder.configuration, *st["delete"])])
 
 
-def class_for(defaults_pairs):
-    """a Probe subclass declaring its defaults as the class attribute CONFIGURATION_DEFAULTS; one class per distinct
-    defaults for the whole process, registered in this module so that the parser can import it by path"""
-    key = json.dumps(defaults_pairs, sort_keys=False)
+def with_holes(seq, holes):
+    """insert None / [] / () placeholders into a sequence of components"""
+    out = list(seq)
+    for idx, kind in holes:
+        out.insert(min(idx, len(out)), None if kind == "none" else [] if kind == "elist" else ())
+    return out
+
+
+# container / truth-value / equality protocols a component class may legally define (the library's own
+# state_machine.TransitionSet defines __len__, __iter__ and __hash__)
+class _Len0:
+    def __len__(self):
+        return 0
+
+
+class _Len3:
+    def __len__(self):
+        return 3
+
+
+class _BoolFalse:
+    def __bool__(self):
+        return False
+
+
+class _BoolTrue:
+    def __bool__(self):
+        return True
+
+
+class _Len0BoolTrue:                 # empty container that says it is truthy
+    def __len__(self):
+        return 0
+
+    def __bool__(self):
+        return True
+
+
+class _Len3BoolFalse:                # non-empty container that says it is falsy
+    def __len__(self):
+        return 3
+
+    def __bool__(self):
+        return False
+
+
+class _IterLen0:                     # like an empty TransitionSet: iterable, sized, identity hash
+    def __iter__(self):
+        return iter(())
+
+    def __len__(self):
+        return 0
+
+    def __hash__(self):
+        return hash(id(self))
+
+
+class _EqName:                       # equal to everything with the same name
+    def __eq__(self, other):
+        return getattr(other, "name", None) == self.name
+
+    def __hash__(self):
+        return hash(self.name)
+
+
+class _EqNever:                      # not even equal to itself
+    def __eq__(self, other):
+        return False
+
+    def __hash__(self):
+        return id(self)
+
+
+class _EqAlways:                     # equal to anything
+    def __eq__(self, other):
+        return True
+
+    def __hash__(self):
+        return 0
+
+
+PROTOS = {"plain": None, "len0": _Len0, "len3": _Len3, "bool_false": _BoolFalse, "bool_true": _BoolTrue,
+          "len0_bool_true": _Len0BoolTrue, "len3_bool_false": _Len3BoolFalse, "iter_len0": _IterLen0,
+          "eq_name": _EqName, "eq_never": _EqNever, "eq_always": _EqAlways}
+FALSY_PROTOS = ("len0", "bool_false", "len3_bool_false", "iter_len0")
+
+
+def class_of(spec):
+    """the class for a node: Probe, plus the protocol mix-in, plus CONFIGURATION_DEFAULTS as a class attribute when the
+    node declares its defaults that way; one class per combination for the whole process, registered in this module so
+    that the component configuration parser can import it by path"""
+    proto = spec.get("proto", "plain")
+    attr = spec.get("defs") == "class_attr"
+    if proto == "plain" and not attr:
+        return Probe
+    key = json.dumps([proto, spec["d"] if attr else None], sort_keys=False)
     if key not in _CLASS_CACHE:
         name = f"K{len(_CLASS_CACHE)}"
-        cls = type(name, (Probe,), {"CONFIGURATION_DEFAULTS": _nest(defaults_pairs), "__module__": __name__,
-                                    "configuration_defaults": Component.configuration_defaults})
+        bases = ((PROTOS[proto],) if PROTOS[proto] else ()) + (Probe,)
+        body = {"__module__": __name__}
+        if attr:
+            body["CONFIGURATION_DEFAULTS"] = _nest(spec["d"])
+            body["configuration_defaults"] = Component.configuration_defaults
+        cls = type(name, bases, body)
         globals()[name] = cls
         _CLASS_CACHE[key] = cls
     return _CLASS_CACHE[key]
 
 
-def class_of(spec):
-    return class_for(spec["d"]) if spec.get("defs") == "class_attr" else Probe
+def _observe(obj):
+    """library components do not log: wrap the bound `setup` of the object and of everything below it"""
+    def w(builder, _orig=obj.setup, _n=obj.name):
+        st = STATE
+        st["log"].append(["comp", _n, [st["read"](builder.configuration, p) for p in st["probes"]], []])
+        return _orig(builder)
+    obj.setup = w
+    for c in obj.sub_components:
+        _observe(c)
+
+
+def build_machine(spec):
+    """a real vivarium.framework.state_machine.Machine: states, their transition sets (EMPTY – hence falsy – for every
+    terminal state) and transitions, from the children of the node"""
+    from vivarium.framework.state_machine import Machine, State, TransientState, Transition
+    specs = STATE["specs"]
+    spec = specs[str(spec["id"])]
+    states = {}
+    order = []
+    for cid in spec["c"]:
+        st = specs[str(cid)]
+        _, sid, transient = st["lib"]
+        obj = (TransientState if transient else State)(sid)
+        states.setdefault(sid, obj)
+        order.append((st, obj))
+    for st, obj in order:
+        tset = specs[str(st["c"][0])]
+        for tid in tset["c"]:
+            _, src, dst = specs[str(tid)]["lib"]
+            obj.add_transition(Transition(obj, states[dst]))
+    m = Machine(spec["lib"][1], states=[o for _, o in order])
+    _observe(m)
+    return m
 
 
 def build(spec, fresh=False):
     """object for a node; the same id gives the same object unless the parent creates its children afresh"""
     memo = STATE["memo"]
+    make = (lambda: build_machine(spec)) if spec.get("lib") else (lambda: class_of(spec)(str(spec["id"])))
     if fresh:
-        return class_of(spec)(str(spec["id"]))
+        return make()
     if spec["id"] not in memo:
-        memo[spec["id"]] = class_of(spec)(str(spec["id"]))
+        memo[spec["id"]] = make()
     return memo[spec["id"]]
 
 
